@@ -13,18 +13,6 @@ Proof.
 Qed.
 
 (* two-input combinators *)
-Fixpoint final2 (o : op2) (s : st2) (la lb : bool) (tl : timeline) : st2 * bool * bool :=
-  match tl with
-  | [] => (s, la, lb)
-  | (sd, e) :: r =>
-      let live := match sd with A => la | B => lb end in
-      if live then
-        let '(s', _) := step2 o s sd e in
-        final2 o s' (match sd with A => negb (is_term e) | B => la end)
-                    (match sd with B => negb (is_term e) | A => lb end) r
-      else final2 o s la lb r
-  end.
-
 Theorem run2_incremental o : forall a s la lb b,
   run2 o s la lb (a ++ b) =
   run2 o s la lb a ++ (let '(s', la', lb') := final2 o s la lb a in run2 o s' la' lb' b).
